@@ -375,6 +375,7 @@ def run(src, tier, seed):
                 else:
                     res.ok(r, 'operator<<(clause_type) (debug printer; CLA_ASSUMPTION/CLA_SPLIT listed as debug-only gaps)')
     res.extra['scope_functions'] = len(ctx.scope)
+    immutable_clauses_rule(fx, res)
     return res
 
 
@@ -447,3 +448,48 @@ def incoming_clause_rule(fx, res, r):
 
 def show_l(l):
     return ('-' if l[2] else '') + l[1] if isinstance(l, tuple) and len(l) == 3 else str(l)
+
+
+def immutable_clauses_rule(fx, res):
+    """The proof keys derivations by clause reference and get-proof prints what the clause contains at that moment: a clause that took part in a derivation must keep
+    its literal set.  Reordering literals (watches) is harmless; removing one (Clause::shrink / pop / strengthen) is done only by the SatELite-style
+    simplification, which SimpSMTSolver::initialize switches off when proofs are logged."""
+    from facts import fwalk, walk, callee, see_through
+    from prims import is_call
+    from build import AnalysisBroken
+    r = res.rule('proof-clauses-keep-their-literals', 'Clause::shrink / pop / strengthen are called only in functions that run under `use_simplification` (asserted at entry or tested around the '
+                 'call), and SimpSMTSolver::initialize clears use_simplification when proofs are logged: no clause that a derivation refers to loses a literal', floor=2)
+    ini = fx.func('opensmt::SimpSMTSolver::initialize')
+    off = False
+    for n in walk(ini['body']):
+        if n.get('k') == 'if' and any(is_call(x, 'logsResolutionProof') for x in [see_through(n['cond'])] + list(walk(n['cond']))):
+            for x in walk(n['then']):
+                if x.get('k') == 'bin' and x.get('op') == '=' and 'use_simplification' in str(x.get('l')) and see_through(x['r']).get('v') is False:
+                    off = True
+    if off:
+        res.ok(r, 'SimpSMTSolver::initialize: use_simplification = false under logsResolutionProof()')
+    else:
+        res.bad(r, 'simplification-on-with-proofs', fx.loc(ini), 'SimpSMTSolver::initialize no longer switches use_simplification off when proofs are logged: clause strengthening then changes clauses '
+                'the proof refers to')
+    n_sites = 0
+    for f in sorted(fx.F.values(), key=lambda f: f['name']):
+        if not f.get('body') or (f.get('class') or '') == 'opensmt::Clause':
+            continue
+        sites = [n for n in fwalk(f) if n.get('k') == 'call' and callee(n) in ('opensmt::Clause::shrink', 'opensmt::Clause::pop', 'opensmt::Clause::strengthen') and not n.get('as')]
+        if not sites:
+            continue
+        callers = {g.get('class') for g in fx.F.values() if g.get('body') for n in fwalk(g) if n.get('k') == 'call' and n.get('id') == f['id']}
+        if callers and callers <= {'opensmt::Clause'}:
+            continue                   # a helper used only by Clause's own methods (remove<Clause, Lit> behind Clause::strengthen)
+        n_sites += len(sites)
+        believes = any(n.get('as') and 'use_simplification' in str(n) for n in fwalk(f)) or \
+            any(n.get('k') == 'if' and 'use_simplification' in str(n.get('cond')) and any(x is s_ for s_ in sites for x in walk(n['then'])) for n in walk(f['body'])) or \
+            any(n.get('k') == 'if' and any(is_call(x, 'logsResolutionProof') for x in walk(n['cond'])) for n in walk(f['body']))
+        if believes:
+            res.ok(r, '%s: removes literals under use_simplification' % f['name'].replace('opensmt::', ''))
+        else:
+            res.bad(r, 'stored-clause-shortened:%s' % f['name'].split('::')[-1], fx.loc(f, sites[0].get('ln')), '%s removes literals from a stored clause (%s) and neither asserts / tests '
+                    'use_simplification nor looks at logsResolutionProof(): with proofs on, a clause that derivations refer to is printed with fewer literals than it had when it was derived '
+                    'or used, and the printed refutation no longer resolves to the empty clause' % (f['name'].replace('opensmt::', ''), callee(sites[0]).split('::')[-1]))
+    if n_sites == 0:
+        raise AnalysisBroken('proof-clauses-keep-their-literals: no call of Clause::shrink / pop / strengthen found (anchor: SimpSMTSolver::strengthenClause)')
